@@ -24,6 +24,8 @@ TRUSTED = [
     "Coq 8.16.1 kernel incl. vm_compute; no axioms (every theorem of coq/Props/C06.v is closed)",
     "the hand-written models coq/Routing/{Model,Text,HextText,TrixTree}.v and C03's coq/Codec/{Model,Hext}.v (term spelling, "
     "readline) are tied to rdflib only by the differential suites of this file (routing, text, hextrows, trixtree)",
+    "the two model levels are connected by proof (coq/Routing/Bridge.v, C06_*_levels_agree) for N-Quads, RDF Patch, HexTuples rows and "
+    "the TriX tree; each level is tied to rdflib separately by the suites",
     "harness numbering/spelling of terms (structural, never rdflib __eq__/__hash__), reading of the resulting Dataset through "
     "Dataset.quads(), recovery of document labels through bnode_context (N-Quads) / TriXHandler.bnode (TriX)",
     "not modelled, crossed by the runs only: the TriG/Turtle and JSON-LD text layers; for TriX the XML text (written by "
